@@ -28,12 +28,13 @@ UNITS = ['millimolar', 'femtogram', 'second']
 STRS = ['', 'x', 'yy']
 
 
-def gen_skeleton(rng, depth):
+def gen_skeleton(rng, depth, top=True):
     n = rng.randint(1, 4)
     out = {}
-    for k in rng.sample(KEYS, n):
+    # below the top level a variable (or a store) may well be called 'time'
+    for k in rng.sample(KEYS if top else KEYS + ['time', 'time'], n):
         if depth > 1 and rng.random() < 0.4:
-            out[k] = gen_skeleton(rng, depth - 1)
+            out[k] = gen_skeleton(rng, depth - 1, False)
         else:
             out[k] = rng.choice(['int', 'int', 'bool', 'str', 'list', 'none', 'qty:' + rng.choice(UNITS), 'mixed'])
     return out
